@@ -103,7 +103,7 @@ PrunedPaths(P, i, T, j, path) ==
 
 \* dictionary lookup by walking edge labels along the key; total on any table
 \*   [ok |-> FALSE, why] (not a readable dictionary along this key: pruned / exotic cell, bad label, bad fork)
-\*   [ok |-> TRUE, found |-> FALSE] | [ok |-> TRUE, found |-> TRUE, v |-> [b |-> value bits, r |-> value refs (rows)], forks |-> <<fork row, position taken>> of the forks passed]
+\*   [ok |-> TRUE, found |-> FALSE] | [ok |-> TRUE, found |-> TRUE, v |-> [b |-> value bits, r |-> value refs (rows)], forks |-> <<fork row, position taken>> of the forks passed, leaf |-> row]
 RECURSIVE LookupEdge(_, _, _, _, _)
 LookupEdge(T, i, n, key, forks) ==
   LET c == T[i] IN
@@ -112,7 +112,7 @@ LookupEdge(T, i, n, key, forks) ==
        IF ~lb.ok THEN [ok |-> FALSE, why |-> "label"]
        ELSE LET ls == Len(lb.s) IN
             IF SubSeq(key, 1, ls) # lb.s THEN [ok |-> TRUE, found |-> FALSE, forks |-> forks]
-            ELSE IF ls = n THEN [ok |-> TRUE, found |-> TRUE, v |-> [b |-> SubSeq(c.b, lb.used + 1, Len(c.b)), r |-> c.r], forks |-> forks]
+            ELSE IF ls = n THEN [ok |-> TRUE, found |-> TRUE, v |-> [b |-> SubSeq(c.b, lb.used + 1, Len(c.b)), r |-> c.r], forks |-> forks, leaf |-> i]
             ELSE IF Len(c.r) # 2 \/ lb.used # Len(c.b) THEN [ok |-> FALSE, why |-> "fork"]
             ELSE LookupEdge(T, c.r[key[ls + 1] + 1], n - ls - 1, SubSeq(key, ls + 2, n), Append(forks, <<i, key[ls + 1] + 1>>))
 Lookup(T, R, n, key) == LookupEdge(T, R, n, key, <<>>)
